@@ -84,6 +84,7 @@ class PolyReport:
         self.max_between = 0.0      # normalised by the tolerance
         self.max_node = 0.0         # normalised by the tolerance
         self.edges = 0
+        self.ill_conditioned = False
 
     def bad(self, key, text):
         self.problems.append((key, text))
@@ -118,6 +119,10 @@ def check_polygon_path(path, K, model, threshold, view=None, between_tol=1e-4,
         r_eff = np.where(np.isfinite(r_all), np.minimum(r_all, 2.0 * threshold), 2.0 * threshold)
         ntol_edge = node_tol * scale + 2.0 * t_on * r_eff
     ntol_vertex = np.maximum(ntol_edge, np.roll(ntol_edge, 1))     # at vertex j
+    elen = np.linalg.norm(np.roll(W, -1, axis=0) - W, axis=-1)
+    if np.any(ntol_vertex > 0.1 * np.minimum(elen, np.roll(elen, 1))):
+        rep.ill_conditioned = True      # node tolerance comparable to an edge's length
+        return rep
     ntol = float(np.max(ntol_vertex))
     start = np.asarray(path.vertices[0], dtype=float)
     dist0 = np.linalg.norm(W - start, axis=-1)
